@@ -53,7 +53,7 @@ CLAIMS = {
          "note": "complement_dsDNA itself is a generator over a graph it mutates (outside pyvc's subset): decided by the bounded unit only.",
          "technique": P_TECH + "; " + B_TECH},
  "C20": {"level": "other",
-         "text": 'Deductive (static effect order): for gen_params, gen_coords and gen_seq, read from the real source on every run, no statement that can write the output file precedes the last processing stage on any path, and the write goes through the deferred writer inside the with-block. Bounded: an exception is injected on entry to and on return from every stage of gen_params (13), gen_coords (16) and gen_seq (6) with the output path absent / present / present with an existing backup; the whole scratch directory is compared byte-wise before and after; success leaves the complete file and a GROMACS-style backup.',
+         "text": 'Deductive (static, over the real ASTs read on every run, with assumed effect contracts of the vermouth writer): in gen_params and gen_coords the only effect on the output path is the DeferredFileWriter flush and every processing stage call precedes it; in gen_seq the open(.., "w") follows graph generation; the first effect is not inside a loop. Bounded: an exception is injected on entry to and on return from every stage of gen_params (13), gen_coords (16) and gen_seq (6) with the output path absent / present / present with an existing backup; the whole scratch directory is compared byte-wise before and after; success leaves the complete file and a GROMACS-style backup.',
          "note": "vermouth DeferredFileWriter exercised by the bounded unit, not verified; the effect classification of callees (which functions may write) is a stated table in contracts/effects.py.",
          "technique": P_TECH + "; " + B_TECH},
 }
@@ -91,13 +91,6 @@ CLAIMS.update({
 CLAIMS["C16"]["text"] = ("Deductive: the representation invariant of NonBondEngine (positioned residues = keys of gndx_to_tree = entries of exactly one index list, each tree holds exactly the rows of its index list) is ESTABLISHED by __init__ and concatenate_trees and PRESERVED by add_positions (both branches incl. the >5000 new-tree branch and re-adding a positioned residue) and remove_positions (any list of residues, trees rebuilt for every touched list), with the view postconditions 'last position given' / 'undefined after removal' / 'nothing else changes'; get_point returns the stored row; a refinement lemma derives the abstract contracts the callers use. _lennard_jones_force = -V'(r)(point-ref)/r (sympy re-derives V'), pbc_min_dist = norm of per-component minimum images, metric laws from the frac schemas. Bounded: every history of length <= 2 (multi-tree world <= 3, tree threshold lowered by AST rewrite) against a brute-force periodic reference, which also exercises compute_force_point (neighbour set, exclusions, 0.1 nm floor) that is not under contract.")
 CLAIMS["C16"]["note"] = TRUST + "Ghost fields (_gslot, _gstale, _gwhere) updated by ghost hooks keyed to statements; KD-tree assumed to be the sequence of its rows; np.where idiom modelled (increasing list of defined indices); frac lemma schemas certified against Mathlib in lean/Frac.lean (run in the thorough tier); compute_force_point decided by the bounded unit only."
 CLAIMS["C17"]["note"] = TRUST + "Inside the proof of _random_walk: update_positions is used with the contract its own body is proved to meet (C05 unit), _rewind likewise; NonBondEngine.add_positions/remove_positions appear over the abstract view posd, which C16 proves for the concrete engine (refinement lemma); search-tree facts of networkx dfs/bfs trees (each node target of one edge, parent-closed, rooted at the start residue) and _find_starting_node are assumed; monotonicity of the ghost counting function is proved by a separate base/step lemma. Termination not claimed. BuildSystem._handle_random_walk/_compose_system are decided by the bounded unit only."
-CLAIMS["C18"]["text"] = "Deductive: BuildDirector._tag_nodes appends the option to exactly the residues with the given name and an id in [start, stop), once, and leaves every other residue and attribute untouched (loop invariant over the node table). Bounded: " + CLAIMS["C18"]["text"].split("Bounded only so far: ")[1]
-CLAIMS["C18"]["technique"] = P_TECH + "; " + B_TECH
-CLAIMS["C18"]["note"] = TRUST + "Spec parsing, molecule index ranges, split and ligands are decided by the bounded unit only. Known findings K1-K3."
-CLAIMS["C19"]["text"] = "Deductive (finite, complete): the pairing table read from the real source is the Watson-Crick complement with 5'/3' exchanged for all 12 residue names, an involution, closed, without fixed point. " + CLAIMS["C19"]["text"]
-CLAIMS["C19"]["technique"] = "finite table laws discharged by z3 over the string theory; " + B_TECH
-CLAIMS["C20"]["text"] = "Deductive (static, over the real ASTs, with assumed effect contracts of the vermouth writer): in gen_params and gen_coords the only effect on the output path is the DeferredFileWriter flush and every processing stage call precedes it; in gen_seq the open(..,'w') follows graph generation. " + CLAIMS["C20"]["text"]
-CLAIMS["C20"]["technique"] = "static effect-ordering obligations over the real AST; " + B_TECH
 
 CLAIMS["C03"]["text"] = "Deductive: _compute_box_size returns the edge with edge^3 * density = 1.6605410 * total mass, the total defined by recursion over the expanded molecule list and the atoms of each molecule with 'the [ atoms ] mass if the column is present (0 included), else the atom-type mass' (two nested loop invariants; the KeyError path is proved unreachable when every atom has one of the two). " + CLAIMS["C03"]["text"].replace("Bounded only so far: ", "Bounded: ")
 CLAIMS["C03"]["technique"] = P_TECH + "; " + B_TECH
